@@ -65,6 +65,18 @@ type world struct {
 	cap      int
 }
 
+// freshLow: VP9 with a receiver that asked for low quality before the stream
+// began (limitSid set, the highest spatial layer still to be learnt from the
+// stream itself).
+func freshLow(start uint16) func() seqx.World {
+	f := fresh(true, start)
+	return func() seqx.World {
+		w := f().(*world)
+		w.w.Down.SetLayer(rtpconn.VerifLayer{Tid: 2, WantedTid: 2, MaxTid: 2, LimitSid: true})
+		return w
+	}
+}
+
 func fresh(vp9 bool, start uint16) func() seqx.World {
 	return func() seqx.World {
 		codec := fwd.VP8
@@ -603,7 +615,7 @@ func (w *pureWorld) Canon() string {
 	return b.String()
 }
 
-func (w *pureWorld) Outcome() string { return w.outcome }
+func (w *pureWorld) Outcome() string  { return w.outcome }
 func (w *pureWorld) Checkpoint() bool { return w.macro }
 func (w *pureWorld) Clone() seqx.World {
 	n := &pureWorld{start: w.start, cursor: w.cursor, outs: map[int64]uint16{}, withheld: map[int64]bool{},
@@ -633,6 +645,9 @@ func allConfigs() []cfgDesc {
 	for _, s := range core.Pick([]uint16{65533}, []uint16{65533, 0}) {
 		cs = append(cs, cfgDesc{"vp9", s})
 	}
+	for _, s := range core.Pick([]uint16{65533}, []uint16{65533, 0}) {
+		cs = append(cs, cfgDesc{"vp9low", s})
+	}
 	for _, s := range core.Pick([]uint16{0, 65533, 8191, 57344}, []uint16{0, 1, 65533, 8191, 8192, 57343, 57344, 32767, 32768}) {
 		cs = append(cs, cfgDesc{"pure", s})
 	}
@@ -646,6 +661,8 @@ func cfgFor(c cfgDesc) seqx.Config {
 		return seqx.Config{Name: name, Fresh: fresh(false, c.start), MaxDepth: core.Pick(5, 7), Parallel: 1}
 	case "vp9":
 		return seqx.Config{Name: name, Fresh: fresh(true, c.start), MaxDepth: core.Pick(5, 7), Parallel: 1}
+	case "vp9low":
+		return seqx.Config{Name: name, Fresh: freshLow(c.start), MaxDepth: core.Pick(4, 6), Parallel: 1}
 	}
 	s := c.start
 	return seqx.Config{Name: name, Fresh: func() seqx.World {
@@ -689,7 +706,7 @@ func main() {
 			a.Outcomes = s.Outcomes
 		}
 	}
-	for _, k := range []string{"vp8", "vp9", "pure"} {
+	for _, k := range []string{"vp8", "vp9", "vp9low", "pure"} {
 		if a := agg[k]; a != nil {
 			res.AddSub(*a)
 		}
